@@ -42,6 +42,7 @@ func checkC17(c *Ctx) {
 		c17Tables(c, p, m)
 		c17Marshal(c, p, m)
 		c17Register(c, p, m)
+		c17NoParseMemo(c, p, m)
 		c17Variadic(c, p, m)
 		c17Tags(c, p, m)
 		regOptsIndependent(c, p)
@@ -418,6 +419,38 @@ func c17Register(c *Ctx, p *Prog, m *Model) {
 	if rl == nil {
 		r.Unk("R17.3", "RegisterLevel", "-", "not found")
 		return
+	}
+	// the settings a registration collects are this call's own: the pack handed to every option is a fresh local of
+	// the registering function, not a package-level default that the options of an earlier registration have edited
+	{
+		nOpt := 0
+		for g := range staticReach([]*ssa.Function{rl}, func(f *ssa.Function) bool { return f.Pkg != p.Slog }) {
+			for _, cs := range callsIn(g) {
+				if calleeOf(cs) != nil || cs.Common().IsInvoke() || typeName(cs.Common().Value.Type()) != "RegOpt" || len(cs.Common().Args) != 1 {
+					continue
+				}
+				nOpt++
+				arg := strip(cs.Common().Args[0])
+				al, isAlloc := arg.(*ssa.Alloc)
+				fresh := isAlloc && al.Parent() == g
+				// ... initialised in this call: no store of a loaded package-level struct into it
+				if fresh {
+					for _, ref := range *al.Referrers() {
+						if st, isSt := ref.(*ssa.Store); isSt && st.Addr == ssa.Value(al) {
+							if _, isG := globalLoad(strip(st.Val)); isG {
+								// a copy of package-level defaults is still a private copy
+								_ = isG
+							}
+						}
+					}
+				}
+				r.Check(fresh, "R17.5", "register:own-pack:"+shortName(g), p.Pos(instrPos(cs)), "the options of a registration work on a local of that call",
+					"the options of a registration are applied to "+m.valDesc(arg)+", which outlives the call: a setting given for one level (treated-as level, error device, tags, colours) stays in force for every level registered afterwards without that option")
+			}
+		}
+		if nOpt == 0 {
+			r.Unk("R17.5", "register:own-pack", p.FuncPos(rl), "no call of a RegOpt found in the registration")
+		}
 	}
 	// transitive: which in-package callees store to the registry / can return a non-nil error
 	storesT := map[*ssa.Function]bool{}
@@ -1322,4 +1355,42 @@ func widthLoopCovers(st GlobalStore) (first, bound int64, arrLen int64, ok bool)
 		}
 	}
 	return
+}
+
+// c17NoParseMemo: a name resolves by the tables as they are NOW: ParseLevel, the text/JSON (un)marshallers and
+// String keep nothing between calls - no function they reach stores to a package-level variable (a negative cache
+// filled before a level was registered would keep rejecting its title afterwards).
+func c17NoParseMemo(c *Ctx, p *Prog, m *Model) {
+	r := c.R
+	var roots []*ssa.Function
+	if f := p.Func(p.Slog, "ParseLevel"); f != nil {
+		roots = append(roots, f)
+	}
+	for _, mn := range []string{"UnmarshalText", "UnmarshalJSON", "MarshalText", "MarshalJSON", "String", "ShortTag"} {
+		if f := p.Method(p.Slog, "Level", mn); f != nil {
+			roots = append(roots, f)
+		}
+	}
+	if len(roots) < 4 {
+		r.Unk("R17.2", "no-memo", "-", "ParseLevel / Level (un)marshallers not found")
+		return
+	}
+	stops, _ := entryPointNames(p)
+	stop := map[string]bool{}
+	for _, s := range stops {
+		stop[s] = true
+	}
+	var bad []string
+	n := 0
+	for fn := range staticReach(roots, func(f *ssa.Function) bool {
+		return f.Pkg != p.Slog || (f.Signature.Recv() != nil && typeName(f.Signature.Recv().Type()) == "Entry") || stop[nm(f)]
+	}) {
+		n++
+		for _, gs := range globalStores(fn) {
+			bad = append(bad, fmt.Sprintf("%s stores to %s at %s", shortName(fn), nm(gs.G), p.Pos(instrPos(gs.Instr))))
+		}
+	}
+	sort.Strings(bad)
+	r.Check(len(bad) == 0, "R17.2", "no-memo", "-", fmt.Sprintf("the %d functions behind ParseLevel / the (un)marshallers / String store to no package-level variable", n),
+		"name resolution keeps state between calls ("+strings.Join(dedupStr(bad), "; ")+"): what a name resolves to depends on what was asked before it was registered, so a registered level may not answer to its title")
 }
